@@ -24,7 +24,7 @@ EXPLANATION = (
     "endpoints must come through an old->new mapping; serialised carriers (HDF5 JSON, data frame) are compared key by "
     "key between writer and reader and against the list of fields the property says are preserved; hash/eq field-set "
     "inclusion is computed transitively through Topology/Chain/Residue/Atom/Bond; counter/list pairing is a CFG "
-    "must-pass-through check; the PDB ATOM/CONECT numbering schemes are summarised as affine counters and compared.")
+    "must-pass-through check; the PDB ATOM/CONECT numbering schemes are summarised as affine counters and compared.  In addition the classes Topology, Chain, Residue and Atom are instantiated from their source by the checker's own evaluator (sa/tensym.py) and copy / subset / join / insert_atom / delete_atom_by_index are evaluated on model topologies built through the class's own add_* methods: structure, preserved fields (resSeq 0, serial 0, chain_id None, bond type / order), renumbering, counters, back-pointers and the absence of shared objects are compared with the definition.")
 NOT_DECIDED = ["pickle round trip (delegated to Python's pickle over the same classes)",
                "that index renumbering after subset yields contiguous indices (run-time list arithmetic)"]
 ASSUMPTIONS = ["Atom objects are usable as dict keys for old->new maps (Atom.__hash__ = index)"]
